@@ -37,6 +37,21 @@ P = {
          "wrong-priority mutants, and exports each scenario with the predicted winner; the harness replays them on real code "
          "for all 9 kinds, nesting, tag syntaxes, cli spellings, with env names derived by the Snake spec",
          "strconv/encoding-json value parsing trusted; value tokens instantiated from per-kind pools incl. extremes", "5/C09"),
+
+ "C04": ("spec/httpd/Router.tla (+RouterMC, RouterCases)",
+         "TLA+ spec with a declarative Match on the route set (statement) and the trie Register/Lookup (implementation-shaped); "
+         "TLC checks Lookup = Match and accept/reject agreement for all tables <=2/<=3 routes x all requests; the real Mux is "
+         "driven over the same tables/requests and every table's observations are judged by TLC against Match",
+         "bounded-exhaustive refinement trie = Match in TLC plus exhaustive conformance of the real ServeHTTP on the same finite "
+         "space (handler identity, call count, RouteInfo, every RouteParam / RouteParamAny, no panic); verdicts use Match only",
+         "patterns start with '/'; non-rooted request paths: totality + one of the admissible segmentations (DESIGN 5/C04)", "5/C04"),
+ "C05": ("spec/httpd/StorePool.tla, spec/httpd/StorePoolCases.tla (extends Router)",
+         "TLA+ model of ServeHTTP around the Store pool (reuse of any pooled Store, append-on-find, resets, lost Store on panic), "
+         "TLC checks isolation for all histories <=4/5 ops with 2 overlapping requests and rejects 5 leak mutants; recorded "
+         "histories of the real Mux (sequential exhaustive, seeded long, 8-goroutine batches) are judged by TLC against Match",
+         "TLC-exhaustive pool model + trace validation of real histories: each observation (route, every param, status, id) must "
+         "be what a fresh Mux would give; ids unique and constant; number of requests on recycled Stores is measured",
+         "sync.Pool reuse cannot be forced (measured); registrations only between requests", "5/C05"),
 }
 
 NOT_BUILT_REASON = "check not built yet in this session (see DESIGN.md section 5 for the planned TLA+ spec and binding)"
